@@ -65,6 +65,10 @@ def start_model(name):
 
         if name == "pheno":
             _MODELS[name] = load_example_model("pheno")
+        elif name == "pheno2dv":
+            from pharmpy.modeling import add_metabolite
+
+            _MODELS[name] = add_metabolite(load_example_model("pheno"))
         elif name == "phenoexp":
             from pharmpy.model import Model
 
@@ -387,9 +391,15 @@ def do_seterr(m1, act, cx):
 
     kind, trans = act["x"], act["y"]
     fn = {"add": set_additive_error_model, "prop": set_proportional_error_model, "comb": set_combined_error_model}[kind]
-    m2 = fn(m1, data_trans="log(Y)") if trans == "log" else fn(m1)
-    y = _yname(m1)
+    dv = int(act["c"]) if act["c"] else None       # the dv argument (DVID) on models with several dependent variables
+    y = _yname(m1) if dv is None else [str(k) for k, val in m1.dependent_variables.items() if val == dv][0]
+    kw = {} if dv is None else {"dv": dv}
+    m2 = fn(m1, data_trans=f"log({y})", **kw) if trans == "log" else fn(m1, **kw)
+    # the epsilons of THIS dependent variable: e1 = proportional or only one, e2 = additive one of a combined model
+    mine = [n for n in _eps_names(m2) if n in P.upstream(m2, {y})]
     e1, e2 = _eps_roles(m2, kind)
+    if dv is not None or e1 not in mine:
+        e1, e2 = (mine[0] if mine else None), (mine[1] if len(mine) > 1 else None)
     env = _be([m1, m2], cx.salt, "small", "zero")
     amounts = None
     if trans == "log":
@@ -727,6 +737,7 @@ def tlc_explore(tier, seed, v: core.Verdict):
     runs = [("all2", ["pheno", "mox2"], 2, ["cov", "eta", "err", "abs"]),
             ("eta3", ["pheno", "mox2", "phenoexp"], 3, ["eta"]),
             ("abs3", ["pheno", "mox2"], 3, ["abs"]),
+            ("dv2", ["pheno2dv"], 2, ["err"]),
             ("err3", ["pheno"], 3, ["err"])]
     if tier == "thorough":
         runs += [("cov3", ["pheno"], 3, ["cov"]), ("abserr3", ["pheno", "mox2"], 3, ["abs", "err"]), ("exp2", ["phenoexp"], 2, ["cov", "eta", "err"]),
@@ -831,12 +842,14 @@ def tlc_validate(traces, v: core.Verdict):
 
 def _must(c):
     """histories that are always executed: Remove . Add on the parameter whose definition already carries an
-    exponential (every eta form), and every change of the number of transit compartments n1 -> n2 with n1, n2 > 0,
+    exponential (every eta form), the error-model setters with a dv argument on the two-DV model, and every change of the number of transit compartments n1 -> n2 with n1, n2 > 0,
     directly and through a write / read round trip"""
     h = c["hist"]
     ks = [a["k"] for a in h]
     if c["model"] == "phenoexp" and ks in (["addiiv", "rmiiv"], ["addiiv", "rmiiv", "addiiv"]) and h[0]["p"] == "CL" and h[1]["p"] == "CL":
         return len(h) == 2 or h[2]["p"] == "CL"
+    if c["model"] == "pheno2dv":     # every error model on one dependent variable, then on the other / the same one
+        return True
     if ks in (["transit", "transit"], ["transit", "reread", "transit"], ["reread", "transit", "transit"]):
         ns = [a["x"] for a in h if a["k"] == "transit"]
         return "0" not in ns and ns[0] != ns[1]
@@ -912,7 +925,7 @@ def main(tier: str, seed: int) -> int:
     core.use_repo()
     import pharmpy.modeling  # noqa: F401
 
-    for n in ("pheno", "mox2", "phenoexp"):
+    for n in ("pheno", "mox2", "phenoexp", "pheno2dv"):
         start_model(n)
     _warm_up()
     th.join()
